@@ -1,11 +1,15 @@
 --------------------------- MODULE MC_Retransmit ---------------------------
 EXTENDS Retransmit, Json
 VARIABLES s, hist, stopAt
-Init == \E q \in QueuedMs : s = SQ(q) /\ hist = (IF q = 0 THEN <<>> ELSE <<[a |-> "queue", t |-> q]>>) /\ stopAt = 0
+\* (a deadline is an absolute time fixed when the call starts; a NEAR one is only combined with an unqueued request, so
+\*  that "dl ticks after the first transmission" and "dl seconds after the call" coincide within the driver's 50 ms slack)
+Init == \E q \in QueuedMs : \E d \in {x \in Deadlines : q = 0 \/ x = 0 \/ x > Horizon} :
+          /\ s = SQD(q, d) /\ stopAt = 0
+          /\ hist = (IF q = 0 THEN <<>> ELSE <<[a |-> "queue", t |-> q]>>) \o (IF d = 0 THEN <<>> ELSE <<[a |-> "deadline", t |-> d]>>)
 \* every history of events; after an ack / rst / cancel / return no further copy may appear
 Next == /\ \E a \in EnvActs : \E t \in EnvApply(s, a) : s' = t /\ hist' = Append(hist, a)
         /\ stopAt' = IF stopAt = 0 /\ (s'.acked \/ s'.rst \/ s'.cancelled \/ s'.pc \in {"ok", "err"}) THEN Len(s'.copies) ELSE stopAt
-        /\ Len(hist) < 9 + (IF s.queued > 0 THEN 1 ELSE 0)
+        /\ Len(hist) < 9 + (IF s.queued > 0 THEN 1 ELSE 0) + (IF s.dl > 0 THEN 1 ELSE 0)
 View == <<s, stopAt, Len(hist)>>
 Inv_Bound == D06_Bound(s)
 Inv_Spacing == D06_Spacing(s)
